@@ -149,3 +149,20 @@ Example C13_ex_reload_changed :
 Proof. eexists. split; [vm_compute; reflexivity|]. repeat split. Qed.
 Example C13_ex_no_foreign : no_foreign ex_sched.
 Proof. repeat constructor. Qed.
+
+(* a reload that switches every server timeout off (0) and re-pairs names and paths: the server then running was
+   created from exactly that configuration, zeros and pairing included *)
+Definition ex_zero : config :=
+  {| addr := [65%N]; drain := 5%Z; read_to := 0%Z; write_to := 0%Z; idle_to := 0%Z;
+     routes := [{| rname := rname ex_r1; rpath := rpath ex_r2 |}; {| rname := rname ex_r2; rpath := rpath ex_r1 |}] |}.
+Definition ex_two : config := ex_cfg [ex_r1; ex_r2].
+Example C13_ex_zero_and_swap_is_a_change : go_config_equal ex_zero ex_two = false /\
+  go_config_equal (ex_cfg (routes ex_zero)) ex_two = false.
+Proof. split; vm_compute; reflexivity. Qed.
+Example C13_ex_reload_to_zero :
+  exists s sv, run (step true true (fun _ => true)) (init ex_two)
+                 [LRunCall; LRunStart; LRunLock; LBootCreate 0 ex_two; LBindOk 0; LProbeOk; LRunFinishBoot;
+                  LReloadCall 0; LReloadBegin 0; LFetch (CbCfg ex_zero); LStopCallS 0; LShutdownRet 0 SOk;
+                  LBootCreate 1 ex_zero; LBindOk 1; LProbeOk; LFinish] = Some s /\
+               fsm_st s = FRunning /\ nth_error (servers s) 1 = Some sv /\ s_cfg sv = ex_zero.
+Proof. eexists. eexists. split; [vm_compute; reflexivity|]. repeat split. Qed.
